@@ -24,7 +24,14 @@ struct GenValue {
     paths: Vec<(String, Kind)>,
 }
 
+/// Hashable values that are not scalars: functions of every kind (plain def, closure over a local, lambda, native),
+/// an enum value, and tuples of them. They are defined at the top of the module (see gen_case).
+const OBJ_LEAVES: &[&str] = &["getcap", "getbox", "getlam", "len", "ENUMV", "withdefault", "(getbox, 1)", "(ENUMV, getlam)", "En", "Rec"];
+
 fn leaf(ch: &mut Choices) -> String {
+    if ch.chance(1, 6) {
+        return (*ch.pick(OBJ_LEAVES)).to_owned();
+    }
     match ch.below(5) {
         0 => format!("{}", ch.range(-3, 40)),
         1 => crate::prog::str_lit(ch.pick_s(&["a", "", "xy", "é"])),
@@ -63,8 +70,10 @@ fn gen_value(ch: &mut Choices, depth: u32, path: &str, hashable_only: bool) -> G
         }
         Kind::Dict => {
             let mut items = Vec::new();
+            let obj_base = ch.idx(OBJ_LEAVES.len());
             for i in 0..n {
-                let key = if ch.bool() { format!("\"k{i}\"") } else { format!("{}", i * 7) };
+                // keys: strings, ints, and (a quarter of the time) functions / enum values / tuples holding them
+                let key = if ch.chance(1, 4) { OBJ_LEAVES[(obj_base + i) % OBJ_LEAVES.len()].to_owned() } else if ch.bool() { format!("\"k{i}\"") } else { format!("{}", i * 7) };
                 let c = gen_value(ch, depth + 1, &format!("{path}[{key}]"), hashable_only);
                 paths.extend(c.paths);
                 items.push(format!("{key}: {}", c.src));
@@ -140,6 +149,12 @@ struct Case {
 
 fn gen_case(ch: &mut Choices) -> Case {
     let mut a = String::from("Rec = record(a = typing.Any, b = typing.Any)\nEn = enum(\"p\", \"q\")\n");
+    // captured state, default arguments, closures, partial, enum, range (defined first: generated exports may hold them)
+    a.push_str("_cap = [5, 6]\n_capd = {\"z\": [1]}\n_caps = set([1, 2])\n");
+    a.push_str("def getcap():\n    return _cap\ndef getcapd():\n    return _capd\ndef getcaps():\n    return _caps\n");
+    a.push_str("def withdefault(x = [7, 8], y = {\"d\": 1}):\n    return (x, y)\n");
+    a.push_str("def _maker():\n    box = [1, [2]]\n    def get():\n        return box\n    return get\ngetbox = _maker()\n");
+    a.push_str("getlam = lambda: _capd\nPART = partial(getcap)\nENUMV = En(\"q\")\nRNG = range(1, 9, 2)\n");
     let mut exports = Vec::new();
     let n = 1 + ch.idx(4);
     for i in 0..n {
@@ -165,12 +180,6 @@ fn gen_case(ch: &mut Choices) -> Case {
         accessors.push(("CYC[2]".into(), Kind::List));
         accessors.push(("CYCD[\"self\"][\"self\"]".into(), Kind::Dict));
     }
-    // captured state, default arguments, closures, partial, enum, range
-    a.push_str("_cap = [5, 6]\n_capd = {\"z\": [1]}\n_caps = set([1, 2])\n");
-    a.push_str("def getcap():\n    return _cap\ndef getcapd():\n    return _capd\ndef getcaps():\n    return _caps\n");
-    a.push_str("def withdefault(x = [7, 8], y = {\"d\": 1}):\n    return (x, y)\n");
-    a.push_str("def _maker():\n    box = [1, [2]]\n    def get():\n        return box\n    return get\ngetbox = _maker()\n");
-    a.push_str("getlam = lambda: _capd\nPART = partial(getcap)\nENUMV = En(\"q\")\nRNG = range(1, 9, 2)\n");
     // a function that mutates its captured state when called: must fail after freezing
     a.push_str("def bump():\n    _cap.append(1)\n    return len(_cap)\n");
     for (e, k) in [
@@ -200,10 +209,14 @@ def ro(v):
         out += [len(v), [e for e in v], v[:1], v[::-1] if len(v) < 9 else None, list(reversed(v)) if len(v) < 9 else None]
         if len(v) > 0:
             out += [v[0], v[-1], v[0] in v, v.index(v[0]) if t == "list" else None]
+        out += [[e in v for e in v], [v.index(e) for e in v] if t == "list" else None]
     elif t == "dict":
         out += [len(v), list(v.keys()), list(v.values()), list(v.items()), v.get("nope", 7), "k0" in v, [k for k in v], dict(v) == v]
+        # every key finds its own entry again (lookup by hash and equality)
+        out += [[v[k] for k in v], [k in v for k in v], [v.get(k, "missing") for k in v], {k: 1 for k in v} == {k: 1 for k in list(v.keys())}]
     elif t == "set":
         out += [len(v), list(v), [e for e in v], 1 in v, list(v | set([99])), list(v & v)]
+        out += [[e in v for e in v], set(list(v)) == v, len(set(list(v) + list(v)))]
     elif t == "struct":
         out += [dir(v), getattr(v, "f0", None), hasattr(v, "f0")]
     elif t == "record":
@@ -269,6 +282,7 @@ fn run_case(case: &Case, importers: usize, r: &mut CaseResult) {
         }
     };
     let mut before_rust: Vec<(String, String)> = Vec::new();
+    let mut before_hash: Vec<(String, u32)> = Vec::new();
     let mut snap_before = String::new();
     let frozen = Module::with_temp_heap(|module| {
         {
@@ -282,6 +296,14 @@ fn run_case(case: &Case, importers: usize, r: &mut CaseResult) {
         for (n, _) in &case.exports {
             if let Some(v) = module.get(n) {
                 before_rust.push((n.clone(), sl::encode(v)));
+            }
+        }
+        // hash of every hashable module-level value (host API), to be compared after freezing
+        for n in module.names().map(|n| n.as_str().to_owned()).collect::<Vec<_>>() {
+            if let Some(v) = module.get(&n) {
+                if let Ok(h) = v.get_hashed() {
+                    before_hash.push((n, h.hash().get()));
+                }
             }
         }
         snap_before = module.get("SNAP").map(sl::encode).unwrap_or_default();
@@ -305,6 +327,22 @@ fn run_case(case: &Case, importers: usize, r: &mut CaseResult) {
                 }
             }
             Err(e) => r.fail("freeze-lost-value", format!("export {n} not available after freeze: {e}")),
+        }
+    }
+    for (n, h_before) in &before_hash {
+        if n.starts_with('_') || n == "SNAP" {
+            continue;
+        }
+        r.evals += 1;
+        if let Ok(v) = frozen.get_owned(n) {
+            match v.by_ref(|v| v.get_hashed().map(|h| h.hash().get())) {
+                Ok(h_after) => {
+                    if h_after != *h_before {
+                        r.fail("freeze-changed-hash", format!("{n}: Value::get_hashed() is {h_before:#x} before freezing and {h_after:#x} after\n{}", case.a_src));
+                    }
+                }
+                Err(e) => r.fail("freeze-changed-hash", format!("{n}: hashable before freezing, not after: {e}")),
+            }
         }
     }
     // --- importing modules, in order: snapshot through frozen and local read-only catalogue, then mutation attempts
@@ -367,7 +405,7 @@ impl Prop for C04 {
         (10, 300)
     }
     fn rule(&self) -> String {
-        "Case = module exporting 1..4 generated nested values (list/dict/set/tuple/struct/record to depth 3 with scalar leaves incl. big ints and non-ASCII strings), optionally aliased (same container reachable three ways) and cyclic (list and dict containing themselves), plus fixed exports with captured state: accessor defs, a lambda, a closure over a local, default-argument containers, partial(), an enum value, a range, and a def that mutates captured state. Oracle: (1) host encoding of every export via FrozenModule::get_owned equals the encoding before freeze; (2) a read-only catalogue (type/str/repr/bool/len/index/slice/reverse/iteration/in/keys/values/items/get/set operators/dir/getattr/hashability) evaluated in-module before freezing equals the same catalogue evaluated in 1..3 importing modules, both through the frozen function and a locally defined copy; (3) every mutation of the per-kind catalogue attempted through every path to every reachable container (and through the accessors) fails and leaves str(value) unchanged, in every importer in order; calling the mutating def fails. evaluations = individual comparisons. Non-trivial = some path has length >= 2, or aliasing/cycles are present; distinct = distinct defining module.".into()
+        "Case = module exporting 1..4 generated nested values (list/dict/set/tuple/struct/record to depth 3 with scalar leaves incl. big ints and non-ASCII strings, and hashable object leaves - plain defs, closures over a local, lambdas, natives, enum values, record/enum types and tuples of them - also as dict keys and set elements), optionally aliased (same container reachable three ways) and cyclic (list and dict containing themselves), plus fixed exports with captured state: accessor defs, a lambda, a closure over a local, default-argument containers, partial(), an enum value, a range, and a def that mutates captured state. Oracle: (1) host encoding of every export via FrozenModule::get_owned equals the encoding before freeze, and Value::get_hashed() of every hashable module-level value is the same before and after; (2) a read-only catalogue (type/str/repr/bool/len/index/slice/reverse/iteration/in/keys/values/items/get/every key and element finding itself again/set operators/dir/getattr/hashability) evaluated in-module before freezing equals the same catalogue evaluated in 1..3 importing modules, both through the frozen function and a locally defined copy; (3) every mutation of the per-kind catalogue attempted through every path to every reachable container (and through the accessors) fails and leaves str(value) unchanged, in every importer in order; calling the mutating def fails. evaluations = individual comparisons. Non-trivial = some path has length >= 2, or aliasing/cycles are present; distinct = distinct defining module.".into()
     }
     fn floors(&self) -> Vec<(&'static str, f64)> {
         vec![("nested_path", 0.4), ("cyclic", 0.3), ("aliased", 0.2)]
